@@ -319,6 +319,7 @@ func c06Run(r *vt.Run, c c06Case, report bool) (canon string) {
 // Sharding: depth-2 prefixes are distributed over the workers.
 func vBFS(r *vt.Run, tag string, alphabet []string, depth int, enabled func(hist []string, ev string) bool, run func(hist []string) string) {
 	frontier := [][]string{nil}
+	sub := 0
 	for d := 1; d <= depth; d++ {
 		var next [][]string
 		for _, hist := range frontier {
@@ -328,17 +329,10 @@ func vBFS(r *vt.Run, tag string, alphabet []string, depth int, enabled func(hist
 				}
 				nh := append(append([]string(nil), hist...), ev)
 				if d == 2 && r.NShards > 1 {
-					// assign the subtree to one shard (all shards explore depth 1 identically)
-					sum := 0
-					for _, e := range nh {
-						for _, c := range e {
-							sum = sum*31 + int(c)
-						}
-					}
-					if sum < 0 {
-						sum = -sum
-					}
-					if sum%r.NShards != r.Shard {
+					// assign the subtree to one shard (all shards explore depth 1 identically, so the
+					// numbering agrees); round-robin spreads the expensive neighbouring subtrees
+					sub++
+					if sub%r.NShards != r.Shard {
 						continue
 					}
 				}
